@@ -2,6 +2,7 @@
 # usage: ./check.sh <ID> <quick|thorough>     or   ./check.sh <ID> --replay <file>
 # Rebuilds the verification binary from /repo's current working tree (hooks on: -tags verif) and
 # runs the property's driver.  exit 0 held / 1 violation / 2 broken check.
+# VERIF_REPO=<dir> (development only) builds against another copy of the repository instead of /repo.
 cd "$(dirname "$0")" || exit 2
 export GOFLAGS=-mod=mod GOPROXY=off GOSUMDB=off GOTOOLCHAIN=local CGO_ENABLED=1
 ID="$1"; TIER="${2:-${VERIF_TIER:-quick}}"
@@ -9,9 +10,14 @@ ID="$1"; TIER="${2:-${VERIF_TIER:-quick}}"
 mkdir -p .build evidence
 cp -f /repo/go.sum go.sum 2>/dev/null
 BIN=".build/vw-$ID"
+MODFLAG=""
+if [ -n "$VERIF_REPO" ]; then
+  sed "s|=> /repo|=> $VERIF_REPO|" go.mod > ".build/alt-$ID.mod"; cp -f go.sum ".build/alt-$ID.sum"
+  MODFLAG="-modfile=.build/alt-$ID.mod"; BIN=".build/vw-$ID-alt"
+fi
 build() { # $1 = output, rest = extra flags
   local out="$1"; shift
-  if ! go build -tags verif "$@" -o "$out.tmp.$$" ./cmd/vw 2> ".build/build-$ID.log"; then
+  if ! go build $MODFLAG -tags "verif p$ID" "$@" -o "$out.tmp.$$" ./cmd/vw 2> ".build/build-$ID.log"; then
     echo "BROKEN: build failed (see .build/build-$ID.log)" >&2; tail -20 ".build/build-$ID.log" >&2; rm -f "$out.tmp.$$"; exit 2
   fi
   mv -f "$out.tmp.$$" "$out"
